@@ -99,7 +99,7 @@ func c01Quota(o c01Op) *v1alpha1.ElasticQuota {
 func c01Pod(id, quota string, req map[string]int64, np, bound bool, term ...bool) *corev1.Pod {
 	p := &corev1.Pod{
 		ObjectMeta: metav1.ObjectMeta{Name: id, Namespace: "ns", UID: types.UID(id), Labels: map[string]string{extension.LabelQuotaName: quota}},
-		Spec: corev1.PodSpec{Containers: []corev1.Container{{Name: "c", Resources: corev1.ResourceRequirements{Requests: c01RL(req)}}}},
+		Spec:       corev1.PodSpec{Containers: []corev1.Container{{Name: "c", Resources: corev1.ResourceRequirements{Requests: c01RL(req)}}}},
 	}
 	if np {
 		p.Labels[extension.LabelPreemptible] = "false"
